@@ -186,7 +186,14 @@ func (x *Exec) runCommand(argv []Str) (res RunResult) {
 				res.Exit = 2
 				res.Panic = r.msg
 				if len(argv) > 0 {
-					x.c.notes = append(x.c.notes, "goit "+argv[0].show()+": panic: "+r.msg)
+					line := "goit"
+					for _, a := range argv {
+						line += " " + a.show()
+					}
+					x.c.notes = append(x.c.notes, line+": panic: "+r.msg)
+					if len(x.c.stats.PanicSamples) < 8 {
+						x.c.stats.PanicSamples = append(x.c.stats.PanicSamples, line+": panic: "+r.msg)
+					}
 				}
 				x.c.stats.Panics++
 			case procCrash:
